@@ -11,7 +11,7 @@ use neurons::tensor::Tensor;
 
 pub fn meta(_ctx: &Ctx) -> Meta {
     Meta {
-        rule: "data-set sizes M in {0 (predict_batch only),1,2,3,63,64,65,127,128,129,130,200} (and 256, 257, 300, 1025 for a thin slice) (below, at, above the internal chunk size 64, not multiples of it) x heads {soft-max(3), linear(1), linear(3), sigmoid(2); soft-max(1) for a slice} x bodies {dense, conv+dense, conv+pool+dense, dense with a multiplicative skip connection, dense with a loop connection, dense with a loop and skip connections out of the looped range} x 7 objectives x tolerances {1e-6,0.1,0.5,10}; inputs pairwise distinct; targets placed clearly inside / outside the tolerance per component, arg-max unique; plus soft-max heads whose last two units are copies (tied maxima): the accuracy must be the mean of the single-sample verdicts, each 0 or 1, and lie between the certain and the possible agreements (the statement does not fix which of several maxima counts). Oracles: predict_batch(xs)[i] bit-equal predict(xs[i]) in input order, length M; predict = last activation of forward; validate loss = mean of objective.loss(predict(x),t); accuracy by the three documented rules; validate and predict_batch repeated inside pools of 1 and 2 workers. A state is one (M, head, body, objective, tolerance) configuration; transitions = predictions made; non-trivial = M >= 2".into(),
+        rule: "data-set sizes M in {0 (predict_batch only),1,2,3,63,64,65,127,128,129,130,200} (and 256, 257, 300, 1025 for a thin slice) (below, at, above the internal chunk size 64, not multiples of it) x heads {soft-max(3), linear(1), linear(3), sigmoid(2); soft-max(1) for a slice} x bodies {dense, conv+dense, conv+pool+dense, dense with a multiplicative skip connection, dense with a loop connection, dense with a loop and skip connections out of the looped range} x 7 objectives x tolerances {1e-6,0.1,0.5,10,-0.5 (nothing is within a negative tolerance)}; inputs pairwise distinct; targets placed clearly inside / outside the tolerance per component, arg-max unique; plus soft-max heads whose last two units are copies (tied maxima): the accuracy must be the mean of the single-sample verdicts, each 0 or 1, and lie between the certain and the possible agreements (the statement does not fix which of several maxima counts). Oracles: predict_batch(xs)[i] bit-equal predict(xs[i]) in input order, length M; predict = last activation of forward; validate loss = mean of objective.loss(predict(x),t); accuracy by the three documented rules; validate and predict_batch repeated inside pools of 1 and 2 workers. A state is one (M, head, body, objective, tolerance) configuration; transitions = predictions made; non-trivial = M >= 2".into(),
         bound: "M <= 200; complete product".into(),
         exhaustive: true,
         assumptions: vec!["the mean is compared with tolerance (M+2)*eps*mean|term| (any summation order)".into()],
@@ -19,7 +19,7 @@ pub fn meta(_ctx: &Ctx) -> Meta {
 }
 
 const SIZES: [usize; 12] = [0, 1, 2, 3, 63, 64, 65, 127, 128, 129, 130, 200];
-const TOLS: [f32; 4] = [1e-6, 0.1, 0.5, 10.0];
+const TOLS: [f32; 5] = [1e-6, 0.1, 0.5, 10.0, -0.5];
 
 fn net_for(head: &str, body: &str) -> Net {
     let head_layer = match head {
